@@ -57,6 +57,26 @@ pub fn input_fn(seed: u64, finite: bool) -> impl Fn(usize, usize) -> f64 {
     }
 }
 
+/// Dynamic quarantines: predicates over the *reference execution* of a generated case, one per
+/// recorded defect class whose shape cannot be kept out of the generator statically. Returns the
+/// names (as listed in KNOWN_FINDINGS.txt) of the classes this case falls into.
+pub fn dyn_quarantined(c: &Case) -> Vec<&'static str> {
+    let mut v = vec![];
+    let Some(prog) = &c.prog else { return v };
+    let inp = input_fn(c.input_seed, c.finite_inputs);
+    if let Ok((_, flags)) = crate::refsem::run(prog, c.n, &inp) {
+        for (flag, q) in [
+            ("modulo_non_integer_operand", "modulo"),
+            ("reentrant_call_with_aggregate_parameter", "wasm-reentrant-call-with-aggregate-parameter"),
+        ] {
+            if flags.contains(flag) && crate::util::q(q) {
+                v.push(q);
+            }
+        }
+    }
+    v
+}
+
 pub fn feat_for(args: &Args, rng: &mut Rng) -> Feat {
     let budget = if args.thorough() { 10 + rng.below(30) } else { 6 + rng.below(14) };
     let mut f = Feat::all(budget);
@@ -79,6 +99,8 @@ pub fn feat_for(args: &Args, rng: &mut Rng) -> Feat {
     }
     f.defaults_dotdot = !args.q("default-args-dotdot") && rng.chance(1, 3);
     f.branch_state = !args.q("stateful-call-in-branch") && rng.chance(1, 4);
+    // one gated state cell at the end of a stateful function (float-valued arms, one arm stateful)
+    f.gated_state = !args.q("gated-state") && rng.chance(1, 3);
     f.raw_logic = false;
     if matches!(args.prop.as_str(), "C01" | "C03" | "C05" | "C12") {
         // hostile profile: these properties need no reference semantics for what they observe
